@@ -695,7 +695,8 @@ class TorConfig:
                 )
             socks_config = self.SocksPort[0]
         else:
-            if not any([socks_config in port for port in self.SocksPort]):
+            if not any([socks_config == port or socks_config == port.split()[0]
+                        for port in self.SocksPort]):
                 # need to configure Tor
                 self.SocksPort.append(socks_config)
                 try:
